@@ -2,19 +2,27 @@ import P2sh.Model.Proto
 /-!
 # C15 — reading packet fields never alters the bytes written back out
 
-* `*_toBytes_parse` — per header: serialising the freshly parsed header gives back the header bytes
-  (pcap record, Ethernet, VLAN, IPv4's fixed 20 bytes, IPv6, UDP; TCP only its first 18 bytes).
-* `tcp_urgent_dropped_witness`, `ipv4_options_dropped_witness`, `ipv4_short_ihl_witness`, `error_object_swallows_witness`
-  — kernel-checked instances of the violations present in the code today.
-* `reads_preserve_bytes_partial` — after ANY script of reads (`G` steps and `W`), if the cache tree that the reads
-  built is `Lossless` (no TCP layer, every IPv4 layer has IHL = 5, an error object only where no byte is left) the
-  packet serialises to record header ++ captured bytes.  `read_states_faithful` is the invariant behind it: every
-  cached layer is what `from_bytes` yields at its offset.
+* `*_toBytes_parse` — per header (pcap record, Ethernet, VLAN, IPv4 with its options, IPv6, TCP with its options, UDP):
+  serialising the freshly parsed header gives back exactly the header bytes.
+* `ser_exact` — a cached layer tree in which every layer is what `from_bytes` yields at its offset (`Faithful`) writes
+  back the captured bytes from its offset on; a cached error object stands for the raw bytes.
+* `read_states_faithful` — the invariant: whatever a script of reads does (property paths with right or wrong layer
+  names, `$n`, intermediate writes, re-parsing), the cache tree stays `Faithful`.
+* `reads_preserve_bytes` — **the property**: after any such script the packet serialises to record header ++ captured
+  bytes.  The only hypotheses are that the captured bytes are bytes and that the four record-header words fit 32 bits.
+
+History: before commits aefd4e7 (TCP codec), d83dd30 (IPv4 options) and 3d62d14 (cached error objects) of /repo this held
+only for cache trees without a TCP layer, with IHL = 5 everywhere and without an error object in front of remaining
+bytes; the theorem was `reads_preserve_bytes_partial` with that hypothesis and four kernel-checked counterexamples.
 -/
 namespace P2sh.Props.C15
 open P2sh P2sh.Proto
 
 def hdrBytes (b : Nat → Nat) (n : Nat) : Bytes := (List.range n).map b
+
+theorem hdrBytes_split (b : Nat → Nat) (n k : Nat) :
+    hdrBytes b (n + k) = hdrBytes b n ++ (List.range k).map (fun i => b (n + i)) := by
+  simp [hdrBytes, List.range_add, List.map_map, Function.comp_def]
 
 /-! ## headers -/
 
@@ -34,24 +42,39 @@ theorem vlan_toBytes_parse (b : Nat → Nat) (hb : ∀ i, b i < 256) : (VlanHdr.
   simp only [VlanHdr.parse, VlanHdr.toBytes, hdrBytes, be16, u16be, List.range, List.range.loop, List.map, List.cons_append, List.nil_append]
   by_cases hd : b 0 / 16 % 2 = 1 <;> simp [hd] <;> omega
 
-theorem ipv4_toBytes_parse (b : Nat → Nat) (hb : ∀ i, b i < 256) : (Ipv4Hdr.parse b).toBytes = hdrBytes b 20 := by
+/-- IPv4: the fixed part and the options (`max(IHL·4, 20)` bytes in all) come back -/
+theorem ipv4_toBytes_parse (b : Nat → Nat) (hb : ∀ i, b i < 256) :
+    (Ipv4Hdr.parse b).toBytes = hdrBytes b (Ipv4Hdr.hdrLen b) := by
+  have h20 : Ipv4Hdr.hdrLen b = 20 + (Ipv4Hdr.hdrLen b - 20) := by unfold Ipv4Hdr.hdrLen; omega
+  rw [h20, hdrBytes_split]
   have := hb 0; have := hb 1; have := hb 2; have := hb 3; have := hb 4; have := hb 5; have := hb 6; have := hb 7
   have := hb 10; have := hb 11
   simp [Ipv4Hdr.parse, Ipv4Hdr.toBytes, hdrBytes, be16, u16be, List.range, List.range.loop]
   omega
+
+/-- a header with IHL 7: 28 bytes come back -/
+example : let b : Nat → Nat := fun i => if i = 0 then 0x47 else i
+    Ipv4Hdr.hdrLen b = 28 ∧ ((Ipv4Hdr.parse b).toBytes).length = 28 := by decide
 
 theorem udp_toBytes_parse (b : Nat → Nat) (hb : ∀ i, b i < 256) : (UdpHdr.parse b).toBytes = hdrBytes b 8 := by
   have := hb 0; have := hb 1; have := hb 2; have := hb 3; have := hb 4; have := hb 5; have := hb 6; have := hb 7
   simp [UdpHdr.parse, UdpHdr.toBytes, hdrBytes, be16, u16be, List.range, List.range.loop]
   omega
 
-/-- TCP writes the first eighteen bytes of its header: the urgent pointer is missing -/
-theorem tcp_toBytes_parse_partial (b : Nat → Nat) (hb : ∀ i, b i < 256) : (TcpHdr.parse b).toBytes = hdrBytes b 18 := by
+/-- TCP: all twenty fixed bytes — data offset, reserved and control bits, urgent pointer — and the options come back -/
+theorem tcp_toBytes_parse (b : Nat → Nat) (hb : ∀ i, b i < 256) :
+    (TcpHdr.parse b).toBytes = hdrBytes b (TcpHdr.hdrLen b) := by
+  have h20 : TcpHdr.hdrLen b = 20 + (TcpHdr.hdrLen b - 20) := by unfold TcpHdr.hdrLen; omega
+  rw [h20, hdrBytes_split]
   have := hb 0; have := hb 1; have := hb 2; have := hb 3; have := hb 4; have := hb 5; have := hb 6; have := hb 7
   have := hb 8; have := hb 9; have := hb 10; have := hb 11; have := hb 12; have := hb 13; have := hb 14; have := hb 15
-  have := hb 16; have := hb 17
+  have := hb 16; have := hb 17; have := hb 18; have := hb 19
   simp [TcpHdr.parse, TcpHdr.toBytes, hdrBytes, be16, be32, u16be, u32be, List.range, List.range.loop]
   omega
+
+/-- data offset 6, reserved bits 0xA, urgent pointer 0x1213: 24 bytes, the same ones -/
+example : let b : Nat → Nat := fun i => if i = 12 then 0x6A else i
+    TcpHdr.hdrLen b = 24 ∧ (TcpHdr.parse b).toBytes = hdrBytes b 24 := by decide
 
 set_option maxRecDepth 100000 in
 theorem or_nibbles : ∀ x : Fin 256, ((x.val / 16) * 16) ||| (x.val % 16) = x.val := by decide +kernel
@@ -72,50 +95,7 @@ theorem ipv6_toBytes_parse (b : Nat → Nat) (hb : ∀ i, b i < 256) : (Ipv6Hdr.
   simp [hdrBytes, be16, u16be, List.range, List.range.loop]
   omega
 
-/-! ## witnesses of the violations present today (each one is a frame, a read, and the bytes that come out) -/
-
-/-- Ethernet + IPv4 (IHL 5, protocol 6) + a 20-byte TCP header whose urgent pointer is 0x1234, two bytes of data -/
-def tcpFrame : Bytes :=
-  [0,1,2,3,4,5, 6,7,8,9,10,11, 8,0,
-   0x45,0,0,42, 0,0,0,0, 64,6,0,0, 10,0,0,1, 10,0,0,2,
-   0x1f,0x90,0,80, 0,0,0,1, 0,0,0,2, 0x50,0x12,0xff,0xff, 0xab,0xcd,0x12,0x34, 0xde,0xad]
-
-def rec0 (raw : Bytes) : PcapHdr := { sec := 0, usec := 0, caplen := raw.length, wirelen := raw.length }
-
-/-- reading `eth.ipv4.tcp` and writing the packet loses the urgent pointer -/
-theorem tcp_urgent_dropped_witness :
-    let p := ((Pkt.new (rec0 tcpFrame) tcpFrame).run [.get .pkt [.eth, .ipv4, .tcp], .write]).1
-    p.bytes ≠ (rec0 tcpFrame).toBytes ++ tcpFrame ∧ p.bytes.length + 2 = ((rec0 tcpFrame).toBytes ++ tcpFrame).length := by
-  decide
-
-/-- IPv4 with IHL 6 (four option bytes 1,2,3,4) + UDP -/
-def optFrame : Bytes :=
-  [0,1,2,3,4,5, 6,7,8,9,10,11, 8,0,
-   0x46,0,0,32, 0,0,0,0, 64,17,0,0, 10,0,0,1, 10,0,0,2, 1,2,3,4,
-   0,53,0,53, 0,8,0,0]
-
-theorem ipv4_options_dropped_witness :
-    let p := ((Pkt.new (rec0 optFrame) optFrame).run [.get .pkt [.eth, .ipv4], .write]).1
-    p.bytes.length + 4 = ((rec0 optFrame).toBytes ++ optFrame).length := by
-  decide
-
-/-- the same frame with IHL 4: sixteen header bytes, but twenty are written and then the bytes from offset 16 again -/
-def shortIhlFrame : Bytes := optFrame.set 14 0x44
-
-theorem ipv4_short_ihl_witness :
-    let p := ((Pkt.new (rec0 shortIhlFrame) shortIhlFrame).run [.get .pkt [.eth, .ipv4], .write]).1
-    p.bytes.length = ((rec0 shortIhlFrame).toBytes ++ shortIhlFrame).length + 4 := by
-  decide
-
-/-- an Ethernet header followed by ten bytes: `eth.ipv4` yields an error object, and the ten bytes are not written -/
-def truncFrame : Bytes := [0,1,2,3,4,5, 6,7,8,9,10,11, 8,0, 0x45,0,0,20, 0,0,0,0, 64,17]
-
-theorem error_object_swallows_witness :
-    let r := (Pkt.new (rec0 truncFrame) truncFrame).run [.get .pkt [.eth, .ipv4], .write]
-    r.1.bytes = (rec0 truncFrame).toBytes ++ truncFrame.take 14 := by
-  decide
-
-/-! ## the invariant of read-only access -/
+/-! ## the cache tree writes back the captured bytes -/
 
 theorem hdrBytes_rd (raw : Bytes) (s n : Nat) : hdrBytes (rd raw s) n = slice raw s n := rfl
 
@@ -123,97 +103,61 @@ theorem drop_split (raw : Bytes) (s n : Nat) (h : s + n ≤ raw.length) :
     raw.drop s = slice raw s n ++ raw.drop (s + n) := by
   rw [slice_eq_take_drop raw s n h, ← List.drop_drop, List.take_append_drop]
 
-/-- every cached layer below is what `from_bytes` yields at its offset; plain values never appear -/
+/-- every cached layer below is what `from_bytes` yields at its offset; plain values (assignments) never appear -/
 def Faithful (raw : Bytes) : Nat → Obj → Prop
   | _, .none => True
   | _, .err => True
   | _, .val _ => False
-  | s, .layer h off inner => (∃ k, parseLayer raw k s = .obj (.layer h off .none)) ∧ Faithful raw off inner
+  | s, .layer h off inner => (∃ k, parseLayer raw k s = .layer h off .none) ∧ Faithful raw off inner
 
-/-- the cache tree contains none of the three shapes that lose bytes today -/
-def Lossless (raw : Bytes) : Nat → Obj → Bool
-  | _, .none => true
-  | s, .err => decide (raw.length ≤ s)
-  | _, .val _ => false
-  | s, .layer h off inner =>
-    match h with
-    | .tcp _ => false
-    | .udp _ => true
-    | .ipv4 _ => decide (off = s + 20) && Lossless raw off inner
-    | _ => Lossless raw off inner
+theorem parseLayer_faithful (raw : Bytes) (k : LayerKind) (s : Nat) : Faithful raw s (parseLayer raw k s) := by
+  cases hk : parseLayer raw k s with
+  | none => trivial
+  | err => trivial
+  | val v => cases k <;> simp only [parseLayer] at hk <;> (repeat' split at hk) <;> cases hk
+  | layer h off inner =>
+    have : inner = .none := by
+      cases k <;> simp only [parseLayer] at hk <;> (repeat' split at hk) <;> cases hk <;> rfl
+    subst this
+    exact ⟨⟨k, hk⟩, trivial⟩
 
-theorem parseLayer_faithful {raw : Bytes} {k : LayerKind} {s : Nat} {ni : Obj}
-    (h : parseLayer raw k s = .obj ni) : Faithful raw s ni := by
-  cases k <;> simp only [parseLayer] at h <;> (repeat' split at h) <;> cases h <;>
-    first
-    | exact trivial
-    | (refine ⟨⟨.eth, ?_⟩, trivial⟩; simp [parseLayer, *]; done)
-    | (refine ⟨⟨.vlan, ?_⟩, trivial⟩; simp [parseLayer, *]; done)
-    | (refine ⟨⟨.ipv4, ?_⟩, trivial⟩; simp [parseLayer, *]; done)
-    | (refine ⟨⟨.ipv6, ?_⟩, trivial⟩; simp [parseLayer, *]; done)
-    | (refine ⟨⟨.tcp, ?_⟩, trivial⟩; simp [parseLayer, *]; done)
-    | (refine ⟨⟨.udp, ?_⟩, trivial⟩; simp [parseLayer, *]; done)
-
-
-/-- a layer writes its header, then (TCP, UDP: always; others: when nothing is cached) the raw bytes after its payload
-offset, else the cached inner object -/
+/-- a layer writes its header, then the raw bytes after its payload offset — or its cached inner object when that
+object writes exactly those bytes -/
 theorem ser_layer_eq (raw : Bytes) (h : Hdr) (off : Nat) (inner : Obj)
-    (hin : inner ≠ .none → ser raw inner = raw.drop off) :
+    (hin : ∀ h' off' i', inner = .layer h' off' i' → ser raw inner = raw.drop off) (hv : ∀ v, inner ≠ .val v) :
     ser raw (.layer h off inner) = h.toBytes ++ raw.drop off := by
   cases inner with
   | none => cases h <;> simp [ser]
-  | err => have := hin (by simp); cases h <;> simp_all [ser]
-  | val v => have := hin (by simp); cases h <;> simp_all [ser]
-  | layer a b c => have := hin (by simp); cases h <;> simp_all [ser]
+  | err => cases h <;> simp [ser]
+  | val v => exact absurd rfl (hv v)
+  | layer a b c => have := hin a b c rfl; cases h <;> simp_all [ser]
 
-theorem ser_tcp_udp (raw : Bytes) (off : Nat) (inner : Obj) :
-    (∀ t, ser raw (.layer (.tcp t) off inner) = t.toBytes ++ raw.drop off) ∧
-    (∀ u, ser raw (.layer (.udp u) off inner) = u.toBytes ++ raw.drop off) := by
-  constructor <;> intro x <;> cases inner <;> simp [ser, Hdr.toBytes]
-
+/-- **a faithful layer tree writes back the captured bytes from its offset on** -/
 theorem ser_exact (raw : Bytes) (hw : wf raw) :
-    ∀ (o : Obj) (s : Nat), Faithful raw s o → Lossless raw s o = true → o ≠ .none → ser raw o = raw.drop s := by
+    ∀ (o : Obj) (s : Nat) (h : Hdr) (off : Nat) (inner : Obj), o = .layer h off inner → Faithful raw s o →
+      ser raw o = raw.drop s := by
   intro o
   induction o with
-  | none => intro s _ _ h; exact absurd rfl h
-  | err => intro s _ hl _; simp [Lossless] at hl; simp [ser, List.drop_eq_nil_of_le hl]
-  | val v => intro s hf; exact hf.elim
-  | layer h off inner ih =>
-    intro s hf hl _
+  | none => intro s h off inner e; cases e
+  | err => intro s h off inner e; cases e
+  | val v => intro s h off inner e; cases e
+  | layer h0 off0 inner0 ih =>
+    intro s h off inner e hf
     obtain ⟨⟨k, hk⟩, hfi⟩ := hf
     have hb := rd_lt hw s
-    cases k <;> simp only [parseLayer] at hk <;> (repeat' split at hk) <;> cases hk
-    · -- eth
-      simp only [Lossless] at hl
-      rw [ser_layer_eq raw _ _ inner (fun hne => ih _ hfi hl hne)]
-      simp only [Hdr.toBytes]
-      rw [eth_toBytes_parse _ hb, hdrBytes_rd]
-      exact (drop_split raw s 14 (by omega)).symm
-    · -- vlan
-      simp only [Lossless] at hl
-      rw [ser_layer_eq raw _ _ inner (fun hne => ih _ hfi hl hne)]
-      simp only [Hdr.toBytes]
-      rw [vlan_toBytes_parse _ hb, hdrBytes_rd]
-      exact (drop_split raw s 4 (by omega)).symm
-    · -- ipv4
-      simp only [Lossless, Bool.and_eq_true, decide_eq_true_eq] at hl
-      obtain ⟨hoff, hl⟩ := hl
-      rw [ser_layer_eq raw _ _ inner (fun hne => ih _ hfi hl hne)]
-      simp only [Hdr.toBytes]
-      rw [ipv4_toBytes_parse _ hb, hdrBytes_rd, hoff]
-      exact (drop_split raw s 20 (by omega)).symm
-    · -- ipv6
-      simp only [Lossless] at hl
-      rw [ser_layer_eq raw _ _ inner (fun hne => ih _ hfi hl hne)]
-      simp only [Hdr.toBytes]
-      rw [ipv6_toBytes_parse _ hb, hdrBytes_rd]
-      exact (drop_split raw s 40 (by omega)).symm
-    · -- tcp
-      simp [Lossless] at hl
-    · -- udp
-      rw [(ser_tcp_udp raw _ inner).2]
-      rw [udp_toBytes_parse _ hb, hdrBytes_rd]
-      exact (drop_split raw s 8 (by omega)).symm
+    have hval : ∀ v, inner0 ≠ .val v := by intro v e; rw [e] at hfi; exact hfi
+    have step : ser raw (.layer h0 off0 inner0) = h0.toBytes ++ raw.drop off0 :=
+      ser_layer_eq raw h0 off0 inner0 (fun h' off' i' e' => ih off0 h' off' i' e' hfi) hval
+    rw [step]
+    cases k <;> simp only [parseLayer] at hk <;> (repeat' split at hk) <;> cases hk <;> simp only [Hdr.toBytes]
+    · rw [eth_toBytes_parse _ hb, hdrBytes_rd]; exact (drop_split raw s 14 (by omega)).symm
+    · rw [vlan_toBytes_parse _ hb, hdrBytes_rd]; exact (drop_split raw s 4 (by omega)).symm
+    · rw [ipv4_toBytes_parse _ hb, hdrBytes_rd]; exact (drop_split raw s _ (by omega)).symm
+    · rw [ipv6_toBytes_parse _ hb, hdrBytes_rd]; exact (drop_split raw s 40 (by omega)).symm
+    · rw [tcp_toBytes_parse _ hb, hdrBytes_rd]; exact (drop_split raw s _ (by omega)).symm
+    · rw [udp_toBytes_parse _ hb, hdrBytes_rd]; exact (drop_split raw s 8 (by omega)).symm
+
+/-! ## reads keep the cache tree faithful -/
 
 /-- a continuation that keeps faithful objects faithful -/
 def Keeps (raw : Bytes) (k : Obj → Obj × StepOut) : Prop := ∀ o s, Faithful raw s o → Faithful raw s (k o).1
@@ -229,15 +173,13 @@ theorem getProp_faithful (raw : Bytes) (p : PP) (k : Obj → Obj × StepOut) (la
     obtain ⟨hp, hfi⟩ := hf
     simp only [getProp]
     split
-    · cases inner with
-      | none =>
-        simp only []
-        split
-        · exact ⟨hp, trivial⟩
-        · rename_i hq; exact ⟨hp, hk _ _ (parseLayer_faithful hq)⟩
-      | err => exact ⟨hp, hk _ _ hfi⟩
-      | val v => exact hfi.elim
-      | layer a b c => exact ⟨hp, hk _ _ hfi⟩
+    · split
+      · exact ⟨hp, hfi⟩
+      · cases inner with
+        | none => exact ⟨hp, hk _ _ (parseLayer_faithful raw _ off)⟩
+        | err => exact ⟨hp, hk _ _ hfi⟩
+        | val v => exact hfi.elim
+        | layer a b c => exact ⟨hp, hk _ _ hfi⟩
     · split <;> exact ⟨hp, hfi⟩
 
 theorem walk_faithful (raw : Bytes) : ∀ ps, Keeps raw (walk raw none ps) := by
@@ -262,10 +204,7 @@ theorem innerStep_faithful (raw : Bytes) (k kf : Obj → Obj × StepOut) (hk : K
     | none =>
       simp only [innerStep]
       split
-      · split
-        · exact ⟨hp, trivial⟩
-        · rename_i hq; exact ⟨hp, hk _ _ (parseLayer_faithful hq)⟩
-      · exact ⟨hp, trivial⟩
+      · exact ⟨hp, hk _ _ (parseLayer_faithful raw _ off)⟩
       · exact ⟨hp, trivial⟩
     | err => exact ⟨hp, hk _ _ hfi⟩
     | val v => exact hfi.elim
@@ -287,15 +226,13 @@ theorem getProp_root (raw : Bytes) (ph : PcapHdr) (p : PP) (k : Obj → Obj × S
   obtain ⟨inner, rfl, hfi⟩ := hr
   simp only [getProp]
   split
-  · cases inner with
-    | none =>
-      simp only []
-      split
-      · exact ⟨_, rfl, trivial⟩
-      · rename_i hq; exact ⟨_, rfl, hk _ _ (parseLayer_faithful hq)⟩
-    | err => exact ⟨_, rfl, hk _ _ hfi⟩
-    | val v => exact hfi.elim
-    | layer a b c => exact ⟨_, rfl, hk _ _ hfi⟩
+  · split
+    · exact ⟨_, rfl, hfi⟩
+    · cases inner with
+      | none => exact ⟨_, rfl, hk _ _ (parseLayer_faithful raw _ 0)⟩
+      | err => exact ⟨_, rfl, hk _ _ hfi⟩
+      | val v => exact hfi.elim
+      | layer a b c => exact ⟨_, rfl, hk _ _ hfi⟩
   · split <;> exact ⟨_, rfl, hfi⟩
 
 theorem walk_root (raw : Bytes) (ph : PcapHdr) (ps : List PP) (root : Obj) (hr : RootOk raw ph root) :
@@ -311,11 +248,7 @@ theorem innerStep_root (raw : Bytes) (ph : PcapHdr) (k kf : Obj → Obj × StepO
     (root : Obj) (hr : RootOk raw ph root) : RootOk raw ph (innerStep raw k kf root).1 := by
   obtain ⟨inner, rfl, hfi⟩ := hr
   cases inner with
-  | none =>
-    simp only [innerStep, dispatch]
-    split
-    · exact ⟨_, rfl, trivial⟩
-    · rename_i hq; exact ⟨_, rfl, hk _ _ (parseLayer_faithful hq)⟩
+  | none => simp only [innerStep, dispatch]; exact ⟨_, rfl, hk _ _ (parseLayer_faithful raw _ 0)⟩
   | err => exact ⟨_, rfl, hk _ _ hfi⟩
   | val v => exact hfi.elim
   | layer a b c => exact ⟨_, rfl, hk _ _ hfi⟩
@@ -338,54 +271,87 @@ theorem access_root (raw : Bytes) (ph : PcapHdr) (hd : Head) (ps : List PP) (roo
     · exact hr
     · exact descend_root raw ph ps _ root hr
 
-/-- a step that assigns nothing and does not re-parse -/
-def Step.isRead : Step → Bool
-  | .get _ _ => true
-  | .write => true
-  | _ => false
+/-- the bytes of a packet whose cache is faithful -/
+theorem bytes_of_root (raw : Bytes) (hw : wf raw) (ph : PcapHdr) (root : Obj) (hr : RootOk raw ph root) :
+    ser raw root = ph.toBytes ++ raw := by
+  obtain ⟨inner, rfl, hfi⟩ := hr
+  have hval : ∀ v, inner ≠ .val v := by intro v e; rw [e] at hfi; exact hfi
+  rw [ser_layer_eq raw _ _ inner (fun h' off' i' e => ser_exact raw hw inner 0 h' off' i' e hfi) hval]
+  simp [Hdr.toBytes]
 
-theorem run_reads (ph : PcapHdr) (steps : List Step) (hro : ∀ st ∈ steps, Step.isRead st = true) :
-    ∀ (p : Pkt), RootOk p.raw ph p.root → (p.run steps).1.raw = p.raw ∧ RootOk p.raw ph (p.run steps).1.root := by
+/-- a step that assigns nothing -/
+def Step.isRead : Step → Bool
+  | .set _ _ _ => false
+  | _ => true
+
+/-- the four words of the record header fit 32 bits (they were read from a savefile) -/
+def PcapHdr.fits (h : PcapHdr) : Prop :=
+  h.sec < 4294967296 ∧ h.usec < 4294967296 ∧ h.caplen < 4294967296 ∧ h.wirelen < 4294967296
+
+theorem pcap_reparse (h : PcapHdr) (hf : PcapHdr.fits h) (rest : Bytes) : PcapHdr.parse (rd (h.toBytes ++ rest) 0) = h := by
+  obtain ⟨s, u, c, w⟩ := h
+  obtain ⟨h1, h2, h3, h4⟩ := hf
+  simp [PcapHdr.parse, PcapHdr.toBytes, rd, getB, le32, u32le] at *
+  omega
+
+theorem pcap_toBytes_length (h : PcapHdr) : h.toBytes.length = 16 := by simp [PcapHdr.toBytes, le32]
+
+theorem run_reads (ph : PcapHdr) (hfit : PcapHdr.fits ph) (raw : Bytes) (hw : wf raw) (steps : List Step)
+    (hro : ∀ st ∈ steps, Step.isRead st = true) :
+    ∀ (p : Pkt), p.raw = raw → RootOk raw ph p.root → (p.run steps).1.raw = raw ∧ RootOk raw ph (p.run steps).1.root := by
   induction steps with
-  | nil => intro p hr; exact ⟨rfl, hr⟩
+  | nil => intro p hraw hr; exact ⟨hraw, hr⟩
   | cons st rest ih =>
-    intro p hr
+    intro p hraw hr
     have hst := hro st (by simp)
     have hrest : ∀ x ∈ rest, Step.isRead x = true := fun x hx => hro x (by simp [hx])
     cases st with
     | get hd path =>
-      have := ih hrest { p with root := (access p.raw p.root hd path none).1 } (access_root p.raw ph hd path p.root hr)
+      have := ih hrest { p with root := (access p.raw p.root hd path none).1 } hraw
+        (by simpa [hraw] using access_root raw ph hd path p.root hr)
       simpa [Pkt.run, Pkt.step] using this
-    | write => simpa [Pkt.run, Pkt.step] using ih hrest p hr
+    | write => simpa [Pkt.run, Pkt.step] using ih hrest p hraw hr
     | set hd path v => simp [Step.isRead] at hst
-    | reparse => simp [Step.isRead] at hst
+    | reparse =>
+      -- the bytes are record header ++ raw, so the re-parsed packet is the captured one with an empty cache
+      have hb : p.bytes = ph.toBytes ++ raw := by
+        simpa [Pkt.bytes, hraw] using bytes_of_root raw hw ph p.root hr
+      have hre : p.reparse = Pkt.new ph raw := by
+        have hd : (ph.toBytes ++ raw).drop 16 = raw := by
+          rw [← pcap_toBytes_length ph]; simp
+        simp only [Pkt.reparse, hb, pcap_reparse ph hfit raw, hd]
+      have := ih hrest (Pkt.new ph raw) rfl ⟨.none, rfl, trivial⟩
+      simpa [Pkt.run, Pkt.step, hre] using this
 
-/-- the cache tree below the packet object contains none of the shapes that lose bytes today: no TCP layer, every IPv4
-layer with its payload right after the 20 fixed bytes (IHL = 5), an error object only where no captured byte is left -/
-def LosslessRoot (raw : Bytes) : Obj → Bool
-  | .layer (.pcap _) _ inner => Lossless raw 0 inner
-  | _ => false
-
-/-- **C15, partial form.**  After any script of reads (property paths, `$n`, intermediate writes) on a freshly captured
-packet, if the cache tree the reads built is `LosslessRoot`, the packet serialises to record header ++ captured bytes. -/
-theorem reads_preserve_bytes_partial (ph : PcapHdr) (raw : Bytes) (hw : wf raw) (steps : List Step)
-    (hro : ∀ st ∈ steps, Step.isRead st = true)
-    (hl : LosslessRoot raw ((Pkt.new ph raw).run steps).1.root = true) :
-    ((Pkt.new ph raw).run steps).1.bytes = ph.toBytes ++ raw := by
-  obtain ⟨hraw, inner, hroot, hfi⟩ := run_reads ph steps hro (Pkt.new ph raw) ⟨.none, rfl, trivial⟩
-  have e : (Pkt.new ph raw).raw = raw := rfl
-  rw [e] at hraw hfi
-  simp only [Pkt.bytes, hraw, hroot]
-  rw [hroot] at hl
-  simp only [LosslessRoot] at hl
-  rw [ser_layer_eq raw _ _ inner (fun hne => ser_exact raw hw inner 0 hfi hl hne)]
-  simp [Hdr.toBytes]
-
-/-- the invariant itself: whatever reads do, every cached layer is what `from_bytes` yields at its offset -/
-theorem read_states_faithful (ph : PcapHdr) (raw : Bytes) (steps : List Step)
+/-- the invariant: whatever reads do, every cached layer is what `from_bytes` yields at its offset -/
+theorem read_states_faithful (ph : PcapHdr) (hfit : PcapHdr.fits ph) (raw : Bytes) (hw : wf raw) (steps : List Step)
     (hro : ∀ st ∈ steps, Step.isRead st = true) :
     RootOk raw ph ((Pkt.new ph raw).run steps).1.root :=
-  (run_reads ph steps hro (Pkt.new ph raw) ⟨.none, rfl, trivial⟩).2
+  (run_reads ph hfit raw hw steps hro (Pkt.new ph raw) rfl ⟨.none, rfl, trivial⟩).2
 
+/-- **C15.**  After any script without assignments — property paths whose layer names agree or disagree with the type
+fields, `$n`, intermediate writes, re-parsing — on a captured packet of any length and content, the packet serialises
+to record header ++ captured bytes. -/
+theorem reads_preserve_bytes (ph : PcapHdr) (hfit : PcapHdr.fits ph) (raw : Bytes) (hw : wf raw) (steps : List Step)
+    (hro : ∀ st ∈ steps, Step.isRead st = true) :
+    ((Pkt.new ph raw).run steps).1.bytes = ph.toBytes ++ raw := by
+  obtain ⟨hraw, hr⟩ := run_reads ph hfit raw hw steps hro (Pkt.new ph raw) rfl ⟨.none, rfl, trivial⟩
+  simp only [Pkt.bytes, hraw]
+  exact bytes_of_root raw hw ph _ hr
+
+/-- Ethernet + IPv4 (IHL 6, four option bytes, protocol 6) + TCP (data offset 6, urgent pointer 0x1234, four option
+bytes) truncated in the payload: reading through the right names, a wrong name, `$4` and a truncated inner layer, then
+re-parsing and reading again, writes the captured bytes -/
+def sampleFrame : Bytes :=
+  [0,1,2,3,4,5, 6,7,8,9,10,11, 8,0,
+   0x46,0,0,50, 0,0,0,0, 64,6,0,0, 10,0,0,1, 10,0,0,2, 1,2,3,4,
+   0x1f,0x90,0,80, 0,0,0,1, 0,0,0,2, 0x6A,0x12,0xff,0xff, 0xab,0xcd,0x12,0x34, 9,9,9,9, 0xde,0xad]
+
+example :
+    let ph : PcapHdr := { sec := 1, usec := 2, caplen := sampleFrame.length, wirelen := 100 }
+    ((Pkt.new ph sampleFrame).run
+      [.get .pkt [.eth, .ipv4, .tcp, .flags], .get .pkt [.eth, .ipv6], .get (.dollar 4) [], .get .pkt [.eth, .ipv4, .tcp, .payload],
+       .write, .reparse, .get .pkt [.eth, .ipv4, .udp], .write]).1.bytes = ph.toBytes ++ sampleFrame := by
+  decide
 
 end P2sh.Props.C15
